@@ -3,14 +3,14 @@ package verifharness
 func init() {
 	bindProp("C01", "H3", "H1")
 	bindProp("C17", "H3", "H1")
-	bindProp("C03", "H1")
+	bindProp("C03", "H1", "H1", "H2")
 	bindProp("C04", "H1")
 	bindProp("C05", "H1")
 	bindProp("C06", "H1")
 	bindProp("C07", "H1")
 	bindProp("C08", "H1")
 	bindProp("C09", "H1")
-	bindProp("C02", "H1")
+	bindProp("C02", "H2", "H2", "H1")
 	bindProp("C16", "H1")
 	bindProp("C19", "H1")
 	bindProp("C20", "H1")
